@@ -291,7 +291,8 @@ def check_monotone(ctx, classes):
                             return isinstance(cv, int) and not isinstance(cv, bool) and cv > 0
                         except ValueError:
                             return isinstance(a, ast.Call) and dotted(a.func) == "len" and len(a.args) == 1
-                    pos = bool(sites) and all(_amount_ok(arg_or_kw(c, idx, v.id)) for c in sites)
+                    inlined_everywhere = not sites and any(q.split(".")[-1] == fi.name for q in repo.canon_inlined.get(fi.module.name, []))
+                    pos = inlined_everywhere or (bool(sites) and all(_amount_ok(arg_or_kw(c, idx, v.id)) for c in sites))
                 ok = isinstance(w.op, ast.Add) and pos
                 ctx.check(ok, R3, cons, "increased by a positive literal / len(...)", f"{attr} is updated by `{short(w)}`: not an increase by a positive literal or len(...), so it can decrease or miscount", where)
             else:
